@@ -22,6 +22,11 @@ type Script struct {
 	funs     map[string]bool
 	opaque   bool // strings as uninterpreted sort
 	mathInt  bool // Go int as mathematical integer (with no-overflow obligations)
+	lineInfo []lineInfo
+	declName []string
+	known    map[string]bool
+	isDef    map[string]bool
+	closure  map[string]map[string]bool
 }
 
 type structInfo struct {
@@ -39,8 +44,8 @@ func newScript() *Script {
 
 func (s *Script) preamble() string {
 	ix := s.ixSort()
-	return `(declare-sort Ref 0)
-(declare-const null Ref)
+	return `(define-sort Ref () Int)
+(define-fun null () Ref 0)
 (declare-datatypes ((Slice 0)) (((mk_slice (sl_base Ref) (sl_off ` + ix + `) (sl_len ` + ix + `) (sl_cap ` + ix + `)))))
 (declare-datatypes ((Iface 0)) (((mk_iface (if_tag Int) (if_ref Ref)))))
 `
@@ -295,7 +300,7 @@ func (s *Script) structOf(t types.Type) *structInfo {
 	s.structs[key] = si
 	for i := 0; i < st.NumFields(); i++ {
 		f := st.Field(i)
-		si.fields = append(si.fields, fmt.Sprintf("%s_%s", name, sanitize(f.Name())))
+		si.fields = append(si.fields, fmt.Sprintf("%s_%d_%s", name, i, sanitize(f.Name())))
 		si.sorts = append(si.sorts, s.sortOf(f.Type()))
 	}
 	var b strings.Builder
@@ -540,10 +545,10 @@ func distinctConsts(a, b string) bool {
 	if strings.HasPrefix(a, "#x") && strings.HasPrefix(b, "#x") {
 		return true
 	}
-	if strings.HasPrefix(a, "alloc_") && strings.HasPrefix(b, "alloc_") {
+	if isAllocRef(a) && isAllocRef(b) {
 		return true
 	}
-	if (strings.HasPrefix(a, "alloc_") && b == "null") || (strings.HasPrefix(b, "alloc_") && a == "null") {
+	if (isAllocRef(a) && b == "null") || (isAllocRef(b) && a == "null") {
 		return true
 	}
 	return false
@@ -568,3 +573,7 @@ func constToBig(c constant.Value) *big.Int {
 	}
 	return big.NewInt(0)
 }
+
+// Objects allocated by the function under verification are the negative integers (literal,
+// hence pairwise distinct); everything that existed before has a non-negative reference.
+func isAllocRef(t string) bool { return strings.HasPrefix(t, "(- ") && !strings.Contains(t[3:], " ") }
